@@ -5,6 +5,8 @@ package main
 
 import (
 	"fmt"
+	"os"
+	"sync"
 	"go/ast"
 	"go/constant"
 	"go/token"
@@ -45,6 +47,8 @@ type frame struct {
 	panicking *goPanic
 	recovered bool
 	bind     []Value
+	visits   map[*ssa.BasicBlock]int
+	harness  bool
 }
 
 type pendingGo struct {
@@ -92,14 +96,14 @@ type Interp struct {
 	mapSeq   int
 	ghost    map[string]Value
 	panicStack []*frame
-	curSite  string
+	curPos   token.Pos
+	curFunc  *ssa.Function
 	nQueries int
 	inputs   []InputDecl // symbolic inputs declared by the harness (for replay models)
 	notes    []string
 	timeNow  *Term
 	chanSeq  int
 	sched    *Sched
-	curFn    string
 	pcH1, pcH2 uint64
 	cache    *SatCache
 	funcs    map[string]bool
@@ -121,8 +125,34 @@ type AllocEvent struct {
 	Count *Term
 }
 
+func (it *Interp) site() string {
+	if !it.curPos.IsValid() {
+		return "?"
+	}
+	p := it.prog.Fset.Position(it.curPos)
+	return fmt.Sprintf("%s:%d", shortFile(p.Filename), p.Line)
+}
+
+func (it *Interp) fnName() string {
+	if it.curFunc == nil {
+		return "?"
+	}
+	return funcName(it.curFunc)
+}
+
+var fnNameCache sync.Map
+
+func funcName(fn *ssa.Function) string {
+	if v, ok := fnNameCache.Load(fn); ok {
+		return v.(string)
+	}
+	s := fn.String()
+	fnNameCache.Store(fn, s)
+	return s
+}
+
 func (it *Interp) inconclusive(msg string) {
-	panic(pathEnd{"inconclusive", msg + " @" + it.curSite})
+	panic(pathEnd{"inconclusive", msg + " @" + it.site()})
 }
 
 func (it *Interp) fresh(name string, s Sort) *Term {
@@ -163,6 +193,9 @@ func (it *Interp) sat(c *Term) (string, Model) {
 		return e.res, e.model
 	}
 	it.nQueries++
+	if d := os.Getenv("SYMGO_DUMP_ALL"); d != "" {
+		os.WriteFile(fmt.Sprintf("%s/b_%06d.smt2", d, it.nQueries), []byte(it.sol.Script(c)), 0o644)
+	}
 	r, m := it.sol.Check(true, c)
 	if r == "sat" || r == "unsat" {
 		it.cache.m[key] = satEntry{res: r, model: m, n: len(it.pc)}
@@ -308,7 +341,7 @@ func (it *Interp) concretize(t *Term, n int, what string) int {
 // Panics
 
 func (it *Interp) rtPanic(msg string) {
-	panic(&goPanic{val: &IfaceV{T: runtimeErrT, V: it.constString("runtime error: " + msg)}, msg: "runtime error: " + msg, runtime: true, site: it.curSite})
+	panic(&goPanic{val: &IfaceV{T: runtimeErrT, V: it.constString("runtime error: " + msg)}, msg: "runtime error: " + msg, runtime: true, site: it.site()})
 }
 
 var runtimeErrT types.Type = types.NewNamed(types.NewTypeName(token.NoPos, nil, "runtime.Error", nil), types.NewStruct(nil, nil), nil)
@@ -335,9 +368,9 @@ func (it *Interp) runInit(pkg *ssa.Package) {
 	if initFn == nil || initFn.Blocks == nil {
 		return
 	}
-	saveSite := it.curSite
+	savePos, saveFunc := it.curPos, it.curFunc
 	defer func() {
-		it.curSite = saveSite
+		it.curPos, it.curFunc = savePos, saveFunc
 		if r := recover(); r != nil {
 			if pe, ok := r.(pathEnd); ok && pe.kind == "inconclusive" {
 				it.notes = append(it.notes, "init of "+pkg.Pkg.Path()+" stopped: "+pe.msg)
@@ -383,7 +416,12 @@ type EngineFunc struct {
 }
 
 func (it *Interp) call(fn *ssa.Function, args []Value, bind []Value) Value {
-	name := fn.String()
+	name := funcName(fn)
+	if it.job.Stubs != nil {
+		if h, ok := it.job.Stubs[name]; ok {
+			return h(it, fn, args)
+		}
+	}
 	if h, ok := intercepts[name]; ok {
 		return h(it, fn, args)
 	}
@@ -409,6 +447,9 @@ func (it *Interp) call(fn *ssa.Function, args []Value, bind []Value) Value {
 		it.inconclusive("call depth exceeded in " + name)
 	}
 	fr := &frame{fn: fn, env: make(map[ssa.Value]Value, 16), bind: bind}
+	if it.job.Unwind > 0 {
+		fr.harness = it.isHarnessFn(fn) || (fn.Parent() != nil && it.isHarnessFn(fn.Parent()))
+	}
 	if fn.Pkg != nil && strings.HasPrefix(fn.Pkg.Pkg.Path(), repoModule) && !it.isHarnessFn(fn) {
 		it.funcs[name] = true
 	}
@@ -438,9 +479,9 @@ func (it *Interp) isHarnessFn(fn *ssa.Function) bool {
 
 // runFrame executes a frame with Go defer/recover semantics.
 func (it *Interp) runFrame(fr *frame) (result Value) {
-	saveSite := it.curSite
+	savePos, saveFunc := it.curPos, it.curFunc
 	defer func() {
-		it.curSite = saveSite
+		it.curPos, it.curFunc = savePos, saveFunc
 		r := recover()
 		if r == nil {
 			return
@@ -450,7 +491,7 @@ func (it *Interp) runFrame(fr *frame) (result Value) {
 			panic(r)
 		}
 		if gp.fn == "" {
-			gp.fn = fr.fn.String()
+			gp.fn = funcName(fr.fn)
 		}
 		// interpreted panic: run this frame's defers, allow recover
 		fr.panicking = gp
@@ -592,10 +633,9 @@ func (it *Interp) run(fr *frame) Value {
 				panic(pathEnd{"inconclusive", "step budget exceeded"})
 			}
 			if pos := ins.Pos(); pos.IsValid() {
-				p := it.prog.Fset.Position(pos)
-				it.curSite = fmt.Sprintf("%s:%d", shortFile(p.Filename), p.Line)
+				it.curPos = pos
 			}
-			it.curFn = fr.fn.String()
+			it.curFunc = fr.fn
 			var done bool
 			var ret Value
 			if fr.tolerant {
@@ -615,10 +655,13 @@ func (it *Interp) run(fr *frame) Value {
 		}
 		// loop unwinding guard: count back-edges taken via symbolic decisions is implicit in step budget;
 		// explicit per-block visit bound:
-		if it.job.Unwind > 0 {
-			it.unwind[next]++
-			if it.unwind[next] > it.job.Unwind {
-				panic(pathEnd{"unwind", fmt.Sprintf("unwinding bound %d reached at %s", it.job.Unwind, it.curSite)})
+		if it.job.Unwind > 0 && !fr.harness {
+			if fr.visits == nil {
+				fr.visits = map[*ssa.BasicBlock]int{}
+			}
+			fr.visits[next]++
+			if fr.visits[next] > it.job.Unwind {
+				panic(pathEnd{"unwind", fmt.Sprintf("unwinding bound %d reached at %s", it.job.Unwind, it.site())})
 			}
 		}
 		fr.prev = b
@@ -746,7 +789,7 @@ func (it *Interp) exec(fr *frame, ins ssa.Instruction) (next *ssa.BasicBlock, re
 	case *ssa.MapUpdate:
 		m, _ := it.get(fr, x.Map).(*MapObj)
 		if m == nil {
-			panic(&goPanic{msg: "assignment to entry in nil map", runtime: true, site: it.curSite})
+			panic(&goPanic{msg: "assignment to entry in nil map", runtime: true, site: it.site()})
 		}
 		it.mapSet(m, it.get(fr, x.Key), it.get(fr, x.Value))
 	case *ssa.Range:
@@ -783,7 +826,7 @@ func (it *Interp) exec(fr *frame, ins ssa.Instruction) (next *ssa.BasicBlock, re
 		fr.env[x] = it.convert(it.get(fr, x.X), x.X.Type(), x.Type())
 	case *ssa.If:
 		c := it.term(it.get(fr, x.Cond), "if")
-		if it.branch(c, "if@"+it.curSite) {
+		if it.branch(c, "if@"+it.site()) {
 			return fr.block.Succs[0], nil, false
 		}
 		return fr.block.Succs[1], nil, false
@@ -815,7 +858,7 @@ func (it *Interp) exec(fr *frame, ins ssa.Instruction) (next *ssa.BasicBlock, re
 				msg = "panic(" + typeName(iv.T) + ")"
 			}
 		}
-		panic(&goPanic{val: v, msg: msg, site: it.curSite})
+		panic(&goPanic{val: v, msg: msg, site: it.site()})
 	case *ssa.RunDefers:
 		it.runDefers(fr)
 	case *ssa.Defer:
@@ -953,7 +996,7 @@ func (it *Interp) to64(t *Term, typ types.Type) *Term {
 func (it *Interp) boundsCheck(idx *Term, n int, what string) {
 	// idx is 64-bit; in range iff idx <u n
 	ok := it.ctx.ULT(idx, it.ctx.BV(uint64(n), 64))
-	if !it.branch(ok, "bounds@"+it.curSite) {
+	if !it.branch(ok, "bounds@"+it.site()) {
 		it.rtPanic(fmt.Sprintf("index out of range [%s] with length %d", what, n))
 	}
 }
@@ -1037,7 +1080,7 @@ func (it *Interp) mapFind(m *MapObj, k Value) *MapEntry {
 			continue
 		}
 		eq := it.equal(e.k, k)
-		if it.branch(eq, "mapkey@"+it.curSite) {
+		if it.branch(eq, "mapkey@"+it.site()) {
 			return e
 		}
 	}
@@ -1130,7 +1173,7 @@ func (it *Interp) iterNext(iv *IterV, x *ssa.Next) Value {
 	}
 	if !b.IsConst() {
 		ascii := it.ctx.ULT(b, it.ctx.BV(0x80, 8))
-		if !it.branch(ascii, "ascii@"+it.curSite) {
+		if !it.branch(ascii, "ascii@"+it.site()) {
 			panic(pathEnd{"truncated", "range over string: non-ASCII symbolic byte (outside bound)"})
 		}
 	}
@@ -1165,13 +1208,13 @@ func (it *Interp) makeSlice(x *ssa.MakeSlice, lv, cv Value) Value {
 	if !lt.IsConst() || !ct.IsConst() {
 		// input-dependent allocation: record for the allocation oracle, then case-split small sizes
 		big := ct
-		it.allocs = append(it.allocs, AllocEvent{Site: it.curSite, Count: big, Bytes: it.ctx.Mul(big, it.ctx.BV(uint64(esz), 64))})
+		it.allocs = append(it.allocs, AllocEvent{Site: it.site(), Count: big, Bytes: it.ctx.Mul(big, it.ctx.BV(uint64(esz), 64))})
 		if it.job.OnAlloc != nil {
 			it.job.OnAlloc(it, it.allocs[len(it.allocs)-1])
 		}
 		it.allocOracle(it.allocs[len(it.allocs)-1])
 		neg := it.ctx.SLT(lt, it.ctx.BV(0, 64))
-		if it.branch(neg, "makeneg@"+it.curSite) {
+		if it.branch(neg, "makeneg@"+it.site()) {
 			it.rtPanic("makeslice: len out of range")
 		}
 		B := it.job.MaxSymAlloc
@@ -1180,9 +1223,9 @@ func (it *Interp) makeSlice(x *ssa.MakeSlice, lv, cv Value) Value {
 			conds[i] = it.ctx.Eq(lt, it.ctx.BV(uint64(i), 64))
 		}
 		conds[B+1] = it.ctx.ULT(it.ctx.BV(uint64(B), 64), lt)
-		d := it.decide(conds, "makeslice-len@"+it.curSite)
+		d := it.decide(conds, "makeslice-len@"+it.site())
 		if d == B+1 {
-			panic(pathEnd{"truncated", fmt.Sprintf("allocation length > %d at %s (outside bound)", B, it.curSite)})
+			panic(pathEnd{"truncated", fmt.Sprintf("allocation length > %d at %s (outside bound)", B, it.site())})
 		}
 		lt = it.ctx.BV(uint64(d), 64)
 		if !ct.IsConst() {
@@ -1199,9 +1242,9 @@ func (it *Interp) makeSlice(x *ssa.MakeSlice, lv, cv Value) Value {
 		it.rtPanic("makeslice: len out of range")
 	}
 	if uint64(cp)*uint64(esz) > uint64(it.job.MaxConcreteAlloc) {
-		panic(pathEnd{"truncated", fmt.Sprintf("concrete allocation of %d bytes at %s (outside the modelled heap)", cp*esz, it.curSite)})
+		panic(pathEnd{"truncated", fmt.Sprintf("concrete allocation of %d bytes at %s (outside the modelled heap)", cp*esz, it.site())})
 	}
-	arr := it.newArrayCell(st.Elem(), cp, "make@"+it.curSite)
+	arr := it.newArrayCell(st.Elem(), cp, "make@"+it.site())
 	return &SliceV{arr: arr, off: 0, ln: n, cp: cp, elem: st.Elem()}
 }
 
@@ -1261,7 +1304,7 @@ func (it *Interp) doSlice(fr *frame, x *ssa.Slice) Value {
 			return int(t.V)
 		}
 		ok := it.ctx.ULE(t, it.ctx.BV(uint64(max), 64))
-		if !it.branch(ok, "slicebounds@"+it.curSite) {
+		if !it.branch(ok, "slicebounds@"+it.site()) {
 			it.rtPanic(fmt.Sprintf("slice bounds out of range [%s] with capacity %d", what, max))
 		}
 		return it.concretize(t, max+1, "slice bound")
@@ -1341,7 +1384,7 @@ func (it *Interp) typeAssert(x *ssa.TypeAssert, v Value) Value {
 		if iv.T != nil {
 			dyn = typeName(iv.T)
 		}
-		panic(&goPanic{msg: fmt.Sprintf("interface conversion: interface is %s, not %s", dyn, typeName(at)), runtime: true, site: it.curSite,
+		panic(&goPanic{msg: fmt.Sprintf("interface conversion: interface is %s, not %s", dyn, typeName(at)), runtime: true, site: it.site(),
 			val: &IfaceV{T: runtimeErrT, V: it.constString("interface conversion")}})
 	}
 	return res
@@ -1466,7 +1509,7 @@ func (it *Interp) binop(op token.Token, a, b Value, ta, tb types.Type) Value {
 		return c.Mul(x, y)
 	case token.QUO, token.REM:
 		zero := c.Eq(y, c.BV(0, w))
-		if it.branch(zero, "divzero@"+it.curSite) {
+		if it.branch(zero, "divzero@"+it.site()) {
 			it.rtPanic("integer divide by zero")
 		}
 		if op == token.QUO {
@@ -1491,7 +1534,7 @@ func (it *Interp) binop(op token.Token, a, b Value, ta, tb types.Type) Value {
 		_, ysigned, _ := isInt(tb)
 		if ysigned && !y.IsConst() {
 			neg := c.SLT(y, c.BV(0, y.S.W))
-			if it.branch(neg, "negshift@"+it.curSite) {
+			if it.branch(neg, "negshift@"+it.site()) {
 				it.rtPanic("negative shift amount")
 			}
 		}
@@ -1853,7 +1896,7 @@ func (it *Interp) builtin(name string, args []Value, site *ssa.CallCommon) Value
 		if ncap < s.ln+len(add) {
 			ncap = s.ln + len(add)
 		}
-		arr := it.newArrayCell(elem, ncap, "append@"+it.curSite)
+		arr := it.newArrayCell(elem, ncap, "append@"+it.site())
 		for i := 0; i < s.ln; i++ {
 			it.storeCell(arr.kids[i], it.loadCell(s.arr.kids[s.off+i]))
 		}
@@ -1889,15 +1932,15 @@ func (it *Interp) builtin(name string, args []Value, site *ssa.CallCommon) Value
 	case "close":
 		ch, _ := args[0].(*ChanObj)
 		if ch == nil {
-			panic(&goPanic{msg: "close of nil channel", runtime: true, site: it.curSite})
+			panic(&goPanic{msg: "close of nil channel", runtime: true, site: it.site()})
 		}
 		if ch.closed {
-			panic(&goPanic{msg: "close of closed channel", runtime: true, site: it.curSite})
+			panic(&goPanic{msg: "close of closed channel", runtime: true, site: it.site()})
 		}
 		ch.closed = true
 		return nil
 	case "panic":
-		panic(&goPanic{val: args[0], msg: "panic", site: it.curSite})
+		panic(&goPanic{val: args[0], msg: "panic", site: it.site()})
 	case "recover":
 		// the panicking frame is the caller of the deferred function
 		if n := len(it.panicStack); n > 0 {
@@ -2006,10 +2049,10 @@ func (it *Interp) builtin(name string, args []Value, site *ssa.CallCommon) Value
 func (it *Interp) chanSend(chv, v Value) {
 	ch, _ := chv.(*ChanObj)
 	if ch == nil {
-		panic(pathEnd{"blocked", "send on nil channel at " + it.curSite})
+		panic(pathEnd{"blocked", "send on nil channel at " + it.site()})
 	}
 	if ch.closed {
-		panic(&goPanic{msg: "send on closed channel", runtime: true, site: it.curSite})
+		panic(&goPanic{msg: "send on closed channel", runtime: true, site: it.site()})
 	}
 	if len(ch.buf) < ch.cp {
 		ch.buf = append(ch.buf, v)
@@ -2018,13 +2061,13 @@ func (it *Interp) chanSend(chv, v Value) {
 	if it.job.OnBlockedSend != nil && it.job.OnBlockedSend(it, ch, v) {
 		return
 	}
-	panic(pathEnd{"blocked", "send would block at " + it.curSite})
+	panic(pathEnd{"blocked", "send would block at " + it.site()})
 }
 
 func (it *Interp) chanRecv(chv Value) (Value, bool) {
 	ch, _ := chv.(*ChanObj)
 	if ch == nil {
-		panic(pathEnd{"blocked", "receive on nil channel at " + it.curSite})
+		panic(pathEnd{"blocked", "receive on nil channel at " + it.site()})
 	}
 	if len(ch.buf) > 0 {
 		v := ch.buf[0]
@@ -2039,7 +2082,7 @@ func (it *Interp) chanRecv(chv Value) (Value, bool) {
 			return ch.readyVal, true
 		}
 	}
-	panic(pathEnd{"blocked", "receive would block at " + it.curSite})
+	panic(pathEnd{"blocked", "receive would block at " + it.site()})
 }
 
 func (it *Interp) doSelect(fr *frame, x *ssa.Select) Value {
@@ -2106,7 +2149,7 @@ func (it *Interp) doSelect(fr *frame, x *ssa.Select) Value {
 				goto take
 			}
 		}
-		panic(pathEnd{"blocked", "select with no ready case at " + it.curSite})
+		panic(pathEnd{"blocked", "select with no ready case at " + it.site()})
 	}
 	if len(ready) == 1 {
 		chosen = ready[0]
@@ -2121,7 +2164,7 @@ func (it *Interp) doSelect(fr *frame, x *ssa.Select) Value {
 				conds[j] = it.ctx.Eq(sel, it.ctx.BV(uint64(j), 8))
 			}
 		}
-		chosen = ready[it.decide(conds, "select@"+it.curSite)]
+		chosen = ready[it.decide(conds, "select@"+it.site())]
 	}
 take:
 	res[0] = it.ctx.BV(uint64(chosen), 64)
